@@ -314,14 +314,14 @@ def decode(t: CT, data: bytes, with_header: bool = False) -> Any:
 
 
 # ------------------------------------------------------------------------------------------------------------ evaluation
-def run_codec(ctx: Ctx, types: Types, fn: str, t: CT, arg: Any, with_header: bool = False) -> Any:
+def run_codec(ctx: Ctx, types: Types, fn: str, t: CT, arg: Any, with_header: bool = False, relaxed: bool = False) -> Any:
     """`serialize(schema, obj)` / `deserialize(schema, data)` evaluated from the source of _serdes: the result, or
     ("raised", class name)"""
     from ..absint import Raised
     from ..fold import Folder, Unfoldable
 
     sd = ctx.repo.module("_serdes")
-    src = "%s(s, x%s)" % (fn, ", with_delimiter_header=True" if with_header else "")
+    src = "%s(s, x%s%s)" % (fn, ", with_delimiter_header=True" if with_header else "", ", relaxed=True" if relaxed else "")
     try:
         return Folder({"s": t.obj, "x": arg}, ctx.repo, sd, None, types.hook_for(types.prim)).fold(ast.parse(src, mode="eval").body)
     except Raised as ex:
